@@ -103,17 +103,17 @@ Definition state_of (o : obs) : state xstate :=
 (** * Model versus implementation *)
 (** what the model predicts a view call (from the module, on a discarded branch, calls enabled) returns *)
 Definition model_view (MODULE : Z) (s : state xstate) (c : Z) (cl : call) : option Z :=
-  let s1 := set_flags xstate s (s_params s) true (s_send_default s) (s_send s) in
-  let '(_, r) := evm_call xstate xcall0 MODULE s1 c MODULE cl in
+  let s1 := set_flags s (s_params s) true (s_send_default s) (s_send s) in
+  let '(_, r) := evm_call xcall0 MODULE s1 c MODULE cl in
   if cr_ok r then cr_ret r else None.
 
 Definition tok_matches (MODULE : Z) (s : state xstate) (o : obs) (t : tok_obs) : bool :=
   let c := to_addr t in
   (* reported balances *)
   forallb (fun ab => oz_eqb (model_view MODULE s c (CBalanceOf (fst ab))) (snd ab)) (zip (o_addrs o) (to_bals t))
-  && Bool.eqb (is_contract xstate xcontract0 s c) (to_contract t)
+  && Bool.eqb (is_contract xcontract0 s c) (to_contract t)
   && (if to_kind t =? 1 then
-        match find_mtok xstate s c with
+        match find_mtok s c with
         | Some m => oz_eqb (Some (st_total m)) (to_total t)
         | None => false
         end
@@ -145,9 +145,9 @@ Definition state_mismatch (MODULE : Z) (s : state xstate) (o : obs) : list nat :
 Definition model_step (MODULE : Z) (s : state xstate) (op : sop) (o : obs) : state xstate * nat :=
   match op with
   | SReload => (state_of o, 9%nat)
-  | SMsg m => deliver xstate xcall0 xcontract0 MODULE s m
-  | STokenCall c caller cl => token_call xstate xcall0 MODULE s c caller cl
-  | SBankSend f t d a => bank_send xstate MODULE s f t d a
+  | SMsg m => deliver xcall0 xcontract0 MODULE s m
+  | STokenCall c caller cl => token_call xcall0 MODULE s c caller cl
+  | SBankSend f t d a => bank_send s f t d a
   end.
 
 Fixpoint cmp_steps (MODULE : Z) (i : nat) (s : state xstate) (l : list cstep) : list (nat * nat) :=
